@@ -174,24 +174,56 @@ Theorem C12_local_pinned_acts_only_when_contact_matches : forall st cl r st' out
     exists ch, aget c (p_children st) = Some ch /\ ch_id ch = cl_id cl.
 Proof. exact local_pinned_acts_only_when_contact_matches. Qed.
 
+(** The publication shortcut (repaired tree, /repo 346cb17c): it acts only for the publisher that carries the calling
+    CA's handle, and only if that publisher's registered ID key is the calling CA's own ID key ... *)
+Theorem C12_local8181_acts_only_for_registered_key : forall rp cl q rp' out h,
+    local8181 rp cl q = (rp', out) -> acted_for out = Some h ->
+    exists pb, aget h (r_pubs rp) = Some pb /\ pb_id pb = cl_id cl.
+Proof. exact local8181_acts_only_for_registered_key. Qed.
+
 Theorem C12_local8181_serves_own_handle : forall rp cl q rp' out h,
     local8181 rp cl q = (rp', out) -> acted_for out = Some h -> h = cl_handle cl.
 Proof. exact local8181_serves_own_handle. Qed.
 
+(** ... a caller with any other key (or without a publisher of its name) is refused, a refusal changes nothing ... *)
+Theorem C12_local8181_wrong_key_refused : forall rp cl q,
+    (forall pb, aget (cl_handle cl) (r_pubs rp) = Some pb -> pb_id pb <> cl_id cl) ->
+    local8181 rp cl q = (rp, Refused).
+Proof. exact local8181_wrong_key_refused. Qed.
+
+Theorem C12_local8181_refused_no_change : forall rp cl q rp', local8181 rp cl q = (rp', Refused) -> rp' = rp.
+Proof. exact local8181_refused_no_change. Qed.
+
+(** ... for a query it coincides with the remote path fed with the message the caller would have signed with its own
+    ID key and posted to the URL of the publisher that carries its handle ... *)
+Theorem C12_local8181_equals_remote : forall validate rp cl q,
+    cms_sound validate -> q <> QReply ->
+    let m := mkMsg (cl_handle cl) 0 q (cl_id cl) true in
+    fst (local8181 rp cl q) = fst (rfc8181 validate rp m) /\
+    match snd (local8181 rp cl q), snd (rfc8181 validate rp m) with
+    | Served h1 r1, Served h2 r2 => h1 = h2 /\ payload r1 = payload r2
+    | Errored h1, Errored h2 | Failed h1, Failed h2 => h1 = h2
+    | Panicked, Panicked | Refused, Refused => True
+    | _, _ => False
+    end.
+Proof. exact local8181_equals_remote. Qed.
+
+(** ... and the effects stay confined to that publisher's jail. *)
 Theorem C12_local8181_effects_confined : forall rp cl q rp' out,
     local8181 rp cl q = (rp', out) -> confined8181 (cl_handle cl) rp rp' \/ rp' = rp.
 Proof. exact local8181_effects_confined. Qed.
 
-(** The publication shortcut in the same three-part form (candidate F12b: a CA of the instance that carries the
-    handle of a publisher registered with a different ID key is served as that publisher). *)
-Theorem C12_local8181_path_refuted : ~ local8181_acts_only_for_registered_key.
-Proof. exact local8181_path_refuted. Qed.
+(** Regression witness (finding F12b, fixed): the originally pinned publication shortcut, which involved no key, does
+    NOT satisfy the statement - a CA of the instance that carries the handle of a publisher registered with a
+    different ID key was served as that publisher; it was right exactly when handle and registration matched. *)
+Theorem C12_local8181_pinned_refuted : ~ local8181_acts_only_for_registered_key_on local8181_pinned.
+Proof. exact local8181_pinned_refuted. Qed.
 
-Theorem C12_local8181_acts_only_when_handle_matches : forall rp cl q rp' out h,
+Theorem C12_local8181_pinned_acts_only_when_handle_matches : forall rp cl q rp' out h,
     publisher_handle_matches_registration rp cl ->
-    local8181 rp cl q = (rp', out) -> acted_for out = Some h ->
+    local8181_pinned rp cl q = (rp', out) -> acted_for out = Some h ->
     exists pb, aget h (r_pubs rp) = Some pb /\ pb_id pb = cl_id cl.
-Proof. exact local8181_acts_only_when_handle_matches. Qed.
+Proof. exact local8181_pinned_acts_only_when_handle_matches. Qed.
 
 (** The validator used to evaluate observed cases satisfies the modelling assumption. *)
 Theorem C12_ideal_validate_sound : forall P, cms_sound (@ideal_validate P).
@@ -222,8 +254,12 @@ Print Assumptions C12_local_equals_remote.
 Print Assumptions C12_local_effects_confined.
 Print Assumptions C12_local_pinned_refuted.
 Print Assumptions C12_local_pinned_acts_only_when_contact_matches.
+Print Assumptions C12_local8181_acts_only_for_registered_key.
 Print Assumptions C12_local8181_serves_own_handle.
+Print Assumptions C12_local8181_wrong_key_refused.
+Print Assumptions C12_local8181_refused_no_change.
+Print Assumptions C12_local8181_equals_remote.
 Print Assumptions C12_local8181_effects_confined.
-Print Assumptions C12_local8181_path_refuted.
-Print Assumptions C12_local8181_acts_only_when_handle_matches.
+Print Assumptions C12_local8181_pinned_refuted.
+Print Assumptions C12_local8181_pinned_acts_only_when_handle_matches.
 Print Assumptions C12_ideal_validate_sound.
